@@ -64,7 +64,7 @@ char *cfg_yylval = NULL;
 extern int  cfg_yylex(cfg_t *cfg);
 extern void cfg_yylex_destroy(void);
 extern int  cfg_lexer_include(cfg_t *cfg, const char *fname);
-extern void cfg_lexer_include_abort(cfg_t *cfg, char *filename);
+extern void cfg_lexer_include_abort(cfg_t *cfg);
 extern void cfg_scan_fp_begin(FILE *fp);
 extern void cfg_scan_fp_end(void);
 
@@ -1755,7 +1755,6 @@ error:
 DLLIMPORT int cfg_parse_fp(cfg_t *cfg, FILE *fp)
 {
 	int ret;
-	char *filename;
 
 	if (!cfg || !fp) {
 		errno = EINVAL;
@@ -1768,11 +1767,10 @@ DLLIMPORT int cfg_parse_fp(cfg_t *cfg, FILE *fp)
 		return CFG_PARSE_ERROR;
 
 	cfg->line = 1;
-	filename = cfg->filename;
 	cfg_scan_fp_begin(fp);
 	ret = cfg_parse_internal(cfg, 0, -1, NULL);
 	if (ret == STATE_ERROR)
-		cfg_lexer_include_abort(cfg, filename);
+		cfg_lexer_include_abort(cfg);
 	cfg_scan_fp_end();
 	if (ret == STATE_ERROR)
 		return CFG_PARSE_ERROR;
